@@ -287,3 +287,33 @@ def run(ctx):
                'header.salt = %s, KDF salt = %s; header.nonce comes from the cipher output: %s' % (salt_hdr, salt_kdf, okn))
     else:
         ctx.anchor_fail('SALT-SYMMETRY', 'derive_key / StorageHeader in encrypt_and_store')
+
+    # ---- 6. a store is acknowledged, and the seed cached, only after it reached the file
+    # "returned unchanged after reopening the file": every Ok of store_master_seed lies behind the Ok edge of
+    # encrypt_and_store, and the in-memory cache is filled only behind it — otherwise a failed write leaves the seed cached
+    # (served in this process, gone after a reopen) or a fast path acknowledges a store that never touched the file.
+    sb = prog.inl(MGR + '::store_master_seed', keep=r'::(encrypt_and_store|load_and_decrypt|derive_key)$')
+    ctx.touch(sb, len(sb.calls()))
+    writes_ok = []
+    for cs in sb.calls():
+        if cs.callee.endswith('::encrypt_and_store::{closure#0}') or cs.callee.endswith('::encrypt_and_store'):
+            te = F.try_edges(sb, cs)
+            if te and te[0] is not None:
+                writes_ok.append(te[0])
+    succ_s = [bb for bb, _ in L.success_returns(sb)]
+    if not writes_ok or not succ_s:
+        ctx.anchor_fail('STORE-DURABLE', 'encrypt_and_store(..)? / Ok return in store_master_seed')
+    else:
+        bad_ret = [bb for bb in succ_s if not any(sb.dominates(w, bb) for w in writes_ok)]
+        ctx.ob('STORE-DURABLE', 'store:ok-after-write', not bad_ret, sb.where(sb.line_of_block(bad_ret[0]) if bad_ret else None),
+               'every Ok of store_master_seed is dominated by the Ok edge of encrypt_and_store' if not bad_ret else
+               'store_master_seed can return Ok (line %s) without a successful encrypt_and_store on that path: the caller is told the seed is stored although the file was not written' % sb.line_of_block(bad_ret[0]),
+               entry=MGR + '::store_master_seed')
+        cins = [c for c in sb.calls(r'HashMap::<.*>::insert$') if c.args and 'key_cache' in sb.expr(c.args[0]).show()]
+        early = [c for c in cins if not any(sb.dominates(w, c.bb) for w in writes_ok)]
+        ctx.ob('STORE-DURABLE', 'store:cache-after-write', bool(cins) and not early, (early[0].where() if early else sb.where()),
+               'the key cache is filled only after encrypt_and_store succeeded (%d insert site(s))' % len(cins) if cins and not early else
+               ('the seed is put into the key cache (line %s) before / without a successful write of the store file: after a failed write the cache '
+                'holds material that is not on disk' % early[0].ln if early else 'no key_cache insert found in store_master_seed (anchor)'),
+               entry=MGR + '::store_master_seed')
+    ctx.floor('STORE-DURABLE', 2)
